@@ -195,6 +195,11 @@ func (t *Queue[T]) Poll(waitIfEmpty bool) T {
 			// immediately return the value if the pending timeouts are supposed to be ignored
 			if t.shutdownFlags.HasBits(IgnorePendingTimeouts) {
 				timeutil.CleanupTimer(timer)
+				// an element that was canceled in the meantime must not be returned
+				if polledElement.Value.isCanceled() {
+					continue
+				}
+
 				return polledElement.Value.Value
 			}
 
@@ -207,6 +212,11 @@ func (t *Queue[T]) Poll(waitIfEmpty bool) T {
 
 			// return the result after the time is reached
 			case <-timer.C:
+				// select picks randomly if the element was canceled as well: a canceled element must not be returned
+				if polledElement.Value.isCanceled() {
+					continue
+				}
+
 				return polledElement.Value.Value
 			}
 
@@ -217,6 +227,11 @@ func (t *Queue[T]) Poll(waitIfEmpty bool) T {
 
 		// return the result after the time is reached
 		case <-timer.C:
+			// select picks randomly if the element was canceled as well: a canceled element must not be returned
+			if polledElement.Value.isCanceled() {
+				continue
+			}
+
 			return polledElement.Value.Value
 		}
 	}
@@ -245,6 +260,16 @@ type QueueElement[T any] struct {
 	timedQueue *Queue[T]
 	cancel     chan byte
 	rawElem    *generalheap.HeapElement[HeapKey, *QueueElement[T]]
+}
+
+// isCanceled returns true if the element was canceled.
+func (timedQueueElement *QueueElement[T]) isCanceled() bool {
+	select {
+	case <-timedQueueElement.cancel:
+		return true
+	default:
+		return false
+	}
 }
 
 // Cancel removed the given element from the queue and cancels its execution.
